@@ -153,6 +153,12 @@ def main(tier):
             t = models[ev].tb.helper_term("gamma")
             if t is not None:
                 gam[ev] = t
+    from ..gamma import check_gamma
+    for ev_, t_ in gam.items():
+        f_ = models[ev_].tb.fn("::ast::gamma")
+        probs = check_gamma(t_, T.param_ids(f_)[0][1])
+        run.ob(not probs, "gamma-reflection|%s" % ev_, "C10 the a < 0.5 branch of gamma is the reflection pi / (sin(pi a) * G(1 - a)) of the direct branch G (coefficients, denominators, power base and exponent with a -> 1 - a)",
+               "%s (%s)" % (f_.key, f_.file), "; ".join(probs)[:400], sample={"evaluator": ev_, "gamma": "reflection branch = direct branch with a -> 1-a"})
     if "eval_f64" in gam and "eval_number" in gam:
         run.ob(gam["eval_f64"] == gam["eval_number"], "sibling|gamma|f64-number", "C10 the two f64 copies of gamma are identical (coefficients bit-equal, same formulas)", "eval_f64::ast::gamma vs eval_number::ast::gamma",
                "terms differ; f64 literals %s vs %s" % (floats_in(gam["eval_f64"])[:24], floats_in(gam["eval_number"])[:24]), sample={"sibling": "gamma f64 = number", "coefficients": len(floats_in(gam["eval_f64"]))})
